@@ -46,10 +46,15 @@ func recordStream(enc *json.Encoder, def lexer.Definition, label string, nodrop 
 		const fn = "dir/file.x"
 		var l lexer.Lexer
 		var err error
-		if sd, isStr := def.(lexer.StringDefinition); isStr {
-			l, err = sd.LexString(fn, in)
-		} else {
+		sd, isStr := def.(lexer.StringDefinition)
+		bd, isBytes := def.(lexer.BytesDefinition)
+		switch {
+		case strings.HasSuffix(label, "/reader") || !isStr:
 			l, err = def.Lex(fn, strings.NewReader(in))
+		case strings.HasSuffix(label, "/bytes") && isBytes:
+			l, err = bd.LexBytes(fn, []byte(in))
+		default:
+			l, err = sd.LexString(fn, in)
 		}
 		if err != nil {
 			return
@@ -144,11 +149,14 @@ func lexstreamRecord(args []string) error {
 		if kinds["stateful"] {
 			if d, _ := safeNew(c.rules()); d != nil {
 				lexers = append(lexers, lx{d, "stateful:" + c.ID, nodrop})
+				lexers = append(lexers, lx{d, "stateful:" + c.ID + "/reader", nodrop})
 			}
 		}
 		if kinds["generated"] {
 			if d, _ := generatedMaker(c); d != nil {
 				lexers = append(lexers, lx{d, "generated:" + c.ID, nodrop})
+				lexers = append(lexers, lx{d, "generated:" + c.ID + "/reader", nodrop})
+				lexers = append(lexers, lx{d, "generated:" + c.ID + "/bytes", nodrop})
 			}
 		}
 		if kinds["simple"] {
